@@ -31,14 +31,32 @@ LEN = {1: 1.0, 2: 2.0}
 ANIS = {1: 1.0, 2: 0.5, 3: 0.25}
 
 
+ANIS_FULL = {1: [1.0, 1.0], 2: [0.5, 1.0], 3: [0.5, 0.25]}
+
+
 def anis_of(tok, dim):
     """Per-axis ratios: token 2 changes only the first ratio, token 3 the first two differently."""
-    full = {1: [1.0, 1.0], 2: [0.5, 1.0], 3: [0.5, 0.25]}[tok]
     if dim == 2:
         return [ANIS[tok]]
-    return full[: dim - 1]
+    return ANIS_FULL[tok][: dim - 1]
+
+
 ANG = {0: 0.0, 1: 0.4}
 NUG = {0: 0.0, 1: 0.5}
+NEARBY = [False]
+_WIDE = dict(VAR=dict(VAR), LEN=dict(LEN), ANIS=dict(ANIS), ANIS_FULL=dict(ANIS_FULL), ANG=dict(ANG), NUG=dict(NUG))
+# "nearby" lattice: the values of a parameter differ by less than numpy.isclose resolves (small values, or
+# relative changes of a few 1e-6); every one of them is a different model and must give a different field
+_NEAR = dict(VAR={1: 1e-10, 2: 4e-10}, LEN={1: 1.0, 2: 1.0 + 4e-6}, ANIS={1: 1.0, 2: 1.0 - 3e-6, 3: 1.0 - 6e-6},
+             ANIS_FULL={1: [1.0, 1.0], 2: [1.0 - 3e-6, 1.0], 3: [1.0 - 3e-6, 1.0 - 6e-6]}, ANG={0: 0.0, 1: 3e-9}, NUG={0: 0.0, 1: 4e-9})
+
+
+def set_lattice(nearby):
+    NEARBY[0] = bool(nearby)
+    src = _NEAR if nearby else _WIDE
+    for name, tab in (("VAR", VAR), ("LEN", LEN), ("ANIS", ANIS), ("ANIS_FULL", ANIS_FULL), ("ANG", ANG), ("NUG", NUG)):
+        tab.clear()
+        tab.update(src[name])
 _SHARED = {SEED_SMALL: SEED_SMALL, SEED_BIG: SEED_BIG, SEED_NEAR: SEED_NEAR}
 
 
@@ -225,7 +243,7 @@ _REF = {}
 
 def reference(kind, cls, dim, want, X, tag="grid"):
     """Field of a freshly constructed SRF with the settings `want` (nugget-free) at the positions X."""
-    key = (kind, cls, dim, tlaval.freeze(want), tag, MODE_SCALE[0], FOURIER_ODD[0])
+    key = (kind, cls, dim, tlaval.freeze(want), tag, MODE_SCALE[0], FOURIER_ODD[0], NEARBY[0])
     if key not in _REF:
         st = {"seed": want["seed"], "modeNo": want["modeNo"], "period": want["period"],
               "pm": {"var": want["var"], "len": want["len"], "anis": want["anis"], "ang": want["ang"], "nug": 0}}
@@ -236,7 +254,7 @@ def reference(kind, cls, dim, want, X, tag="grid"):
 
 def reference_noisy(kind, cls, dim, want, nug, d, X):
     """Field (with nugget noise) of the d-th identical call of a freshly constructed SRF with the settings `want`."""
-    key = ("noisy", kind, cls, dim, tlaval.freeze(want), nug, MODE_SCALE[0], FOURIER_ODD[0])
+    key = ("noisy", kind, cls, dim, tlaval.freeze(want), nug, MODE_SCALE[0], FOURIER_ODD[0], NEARBY[0])
     if key not in _REF:
         st = {"seed": want["seed"], "modeNo": want["modeNo"], "period": want["period"],
               "pm": {"var": want["var"], "len": want["len"], "anis": want["anis"], "ang": want["ang"], "nug": nug}}
@@ -448,6 +466,7 @@ def _work(job):
     many_modes = tag.endswith("/manymodes")
     MODE_SCALE[0] = 32 if many_modes else 1
     FOURIER_ODD[0] = tag.endswith("/roundingprone")
+    set_lattice(tag.endswith("/nearby"))
     warnings.simplefilter("ignore")
     rng = random.Random(rseed)
     col = _Collect()
@@ -671,7 +690,7 @@ def run(pid, tier, seed, replay=None):
     rng = random.Random(seed)
     thorough = tier == "thorough"
     rep.assumptions += [
-        "value lattice: var {1,2}, len_scale {1,2}, anis {[1,1],[1/2,1],[1/2,1/4]}, first angle {0,0.4}, nugget {0,0.5}, seeds {7, 20170519}, mode_no {4,6}, periods {8 / [8,16,12]}",
+        "value lattice: var {1,2}, len_scale {1,2}, anis {[1,1],[1/2,1],[1/2,1/4]}, first angle {0,0.4}, nugget {0,0.5}, seeds {7, 20170519, 20170521}, mode_no {4,6}, periods {8 / [8,16,12]}; plus a nearby lattice whose values numpy.isclose cannot tell apart (var 1e-10 / 4e-10, len_scale 1 / 1+4e-6, nugget 0 / 4e-9, angle 0 / 3e-9)",
         "`sampling` is not among the settings the property lists and is not modelled",
         "reference values come from freshly built SRF objects (the property's own oracle); the order of RNG draws is not pinned",
         "nugget noise is only compared between the two identity runs of the same behaviour (bitwise)",
@@ -745,6 +764,11 @@ def run(pid, tier, seed, replay=None):
         for dim in (1, 2):
             work.append(("Fourier/Gaussian/%d/roundingprone" % dim, "Fourier", "Fourier", "Gaussian", dim, sc.dir,
                          (150 if thorough else 60), rng.randrange(2**31), tier))
+        # parameter values that numpy.isclose cannot tell apart
+        for kind in kinds:
+            if kind != "IncomprRandMeth" or thorough:
+                work.append(("%s/Gaussian/2/nearby" % kind, kind, "Fourier" if kind == "Fourier" else "RandMeth", "Gaussian", 2, sc.dir,
+                             (200 if thorough else 80), rng.randrange(2**31), tier))
         if pid == "C11":
             for kind in ("RandMeth", "IncomprRandMeth"):
                 work.append(("%s/Gaussian/3/manymodes" % kind, kind, "RandMeth", "Gaussian", 3, sc.dir, 40, rng.randrange(2**31), tier))
